@@ -10,6 +10,7 @@ import (
 	"context"
 	"fmt"
 	"sort"
+	"strings"
 	"testing"
 
 	"verif/ref"
@@ -44,7 +45,7 @@ func runC14Sio(c *sim.Ctx, t *testing.T, failing bool) {
 		present[mid] = true
 		recorders[mid] = true
 	}
-	g := &vfGen{c: c, mids: mids, fail: failing}
+	g := &vfGen{c: c, mids: mids, fail: failing, spawn: !failing}
 	nmsgs := 1 + c.Intn(4, "nmsgs")
 	prop := "route"
 	if failing {
@@ -66,13 +67,32 @@ func runC14Sio(c *sim.Ctx, t *testing.T, failing bool) {
 		}
 		c.Count("messages_submitted")
 		c.Add("messages_processed", want.count)
-		desc := fmt.Sprintf("submitted %s to a crew of %v", ref.Canon(msg), mids)
+		before := append([]string{}, mids...)
+		var late []string
+		for name := range want.spawned {
+			late = append(late, name)
+		}
+		sort.Strings(late)
+		mids = append(mids, late...)
+		c.Add("machines_created_mid_cascade", len(late))
+		desc := fmt.Sprintf("submitted %s to a crew of %v", vfShort(ref.Canon(msg)), before)
 		// who saw what, how often
 		for _, mid := range mids {
 			ids := vfLogIds(crew.Machines[mid])
 			got := ids[logged[mid]:]
 			logged[mid] = len(ids)
 			w := want.seen[mid]
+			if opt := want.optional[mid]; len(opt) > 0 {
+				// a machine created in this round may or may not have existed for the
+				// round's other messages: drop those it was free to miss or see
+				var g2 []string
+				for _, id := range got {
+					if !opt[id] {
+						g2 = append(g2, id)
+					}
+				}
+				got = g2
+			}
 			gs, ws := append([]string{}, got...), append([]string{}, w...)
 			sort.Strings(gs)
 			sort.Strings(ws)
@@ -125,4 +145,19 @@ func runC14Sio(c *sim.Ctx, t *testing.T, failing bool) {
 	c.Path = fmt.Sprintf("%d|%s|%d", nm, shape, g.n)
 	c.Trivial = g.n < 2
 	c.Sample = map[string]interface{}{"machines": mids, "messages": nmsgs, "processed/batches": shape}
+}
+
+// vfShort abbreviates inline specs in a rendered message.
+func vfShort(txt string) string {
+	for {
+		j := strings.Index(txt, `"inline":{`)
+		if j < 0 {
+			return txt
+		}
+		k := strings.Index(txt[j:], `"type":"message"}}}}`)
+		if k < 0 {
+			return txt
+		}
+		txt = txt[:j] + `"inline":"<recorder spec>"` + txt[j+k+len(`"type":"message"}}}}`):]
+	}
 }
